@@ -19,6 +19,45 @@ theorem C07_no_shared_writes :
     sharedWriters = [("mjml/globals.instance", "mjml/globals.SetGlobalAttributes", "plain")] ∧
     Gomjml.Gen.Census.census.filter (fun r => r.2.1 == "globals.SetGlobalAttributes") = [] := by decide
 
+/-- Regenerated fact: **every package-level variable that can hold state** (anything but constants-in-disguise and compiled
+    regular expressions): the cache and single-flight machinery (C13–C15), tables filled once (`sync.Once`, `init`) and read
+    afterwards, the test-mode id counters, the parser hook, the old attribute store.  A pool, a memo table, a lazily filled
+    cache added anywhere in the rendering code is a new row here — whether it is written by assignment or through a method
+    (`Put`, `Store`) -/
+theorem C07_stateful_package_variables :
+    Gomjml.Gen.PkgVars.pkgVars.filter (fun r => r.2 != "basic" && r.2 != "regexp") = [
+      ("mjml.ParseMJML", "func"),
+      ("mjml.astCache", "sync"),
+      ("mjml.astCacheCleanupOnce", "sync"),
+      ("mjml.astCacheTTLOnce", "sync"),
+      ("mjml.cacheCleanupMutex", "sync"),
+      ("mjml.cacheConfigMutex", "sync"),
+      ("mjml.cleanupCancel", "func"),
+      ("mjml.hashSeed", "struct"),
+      ("mjml.sfCalls", "map"),
+      ("mjml.sfMutex", "sync"),
+      ("mjml.templateHashSeedOnce", "sync"),
+      ("mjml/components.allowedAttributeSets", "map"),
+      ("mjml/components.allowedAttributes", "map"),
+      ("mjml/components.allowedAttributesErr", "interface"),
+      ("mjml/components.allowedAttributesOnce", "sync"),
+      ("mjml/components.allowedCSSAttributesJSON", "slice"),
+      ("mjml/components.baseSocialNetworkDefaults", "map"),
+      ("mjml/components.carouselTestIDs", "slice"),
+      ("mjml/components.carouselTestIndex", "sync"),
+      ("mjml/components.globalAllowedAttributes", "map"),
+      ("mjml/components.navbarTestIDs", "slice"),
+      ("mjml/components.navbarTestIndex", "sync"),
+      ("mjml/components.socialElementInheritableAttributes", "map"),
+      ("mjml/components.voidTagsWithoutClosingSlash", "map"),
+      ("mjml/fonts.GoogleFontsMapping", "map"),
+      ("mjml/globals.instance", "pointer"),
+      ("mjml/testmode.enabled", "sync"),
+      ("mjml/testmode.mu", "sync"),
+      ("parser.charDataEscaper", "pointer"),
+      ("parser.htmlVoidElements", "map"),
+      ("parser.namedHTMLEntities", "map")] := by decide
+
 /-- **C07 (isolation), proved for every schedule**: if no thread writes a shared location, every thread reads from shared
     memory exactly what it would read running alone (the initial contents) — so its output is its solo output -/
 theorem C07_isolated (R : Loc → Prop) (m0 : Loc → Val) (σ : List Nat) (s : Sys)
